@@ -817,6 +817,10 @@ static char *read_include_filename(Token **rest, Token *tok, bool *is_dquote) {
   // a single string token or a sequence of "<" ... ">".
   if (tok->kind == TK_IDENT) {
     Token *tok2 = preprocess2(copy_line(rest, tok));
+    // An identifier that is still there is not a macro: expanding it
+    // again would never end.
+    if (tok2->kind == TK_IDENT)
+      error_tok(tok, "expected a filename");
     return read_include_filename(&tok2, tok2, is_dquote);
   }
 
@@ -991,6 +995,11 @@ static Token *preprocess2(Token *tok) {
       if (!val)
         tok = skip_cond_incl(tok);
       continue;
+    }
+
+    if (equal(tok, "ifdef") || equal(tok, "ifndef")) {
+      if (tok->next->at_bol || tok->next->kind != TK_IDENT)
+        error_tok(tok, "no macro name given in #%.*s directive", tok->len, tok->loc);
     }
 
     if (equal(tok, "ifdef")) {
